@@ -202,6 +202,16 @@ def check(program, rep):
                                     "%s.%s (%s): results depend on earlier "
                                     "calls" % (q, o[1], o[2], e.text),
                                     e.node)
+            # a result cache on a generator function hands the same
+            # (exhausted) generator to later callers: remembered state
+            decs = [unparse(d) for d in getattr(fn, "decorator_list", [])]
+            if any("cache" in d or "memoize" in d for d in decs) and any(
+                    isinstance(n, (ast.Yield, ast.YieldFrom))
+                    for n in ast.walk(fn)):
+                rep.bad("C17-R2", inst, "cached generator %s" % decs,
+                        "%s is a generator function wrapped by %s: a later "
+                        "call with equal arguments gets the generator an "
+                        "earlier call already consumed" % (q, decs), fn)
             for n in ast.walk(fn):
                 if isinstance(n, ast.Global):
                     rep.bad("C17-R2", inst, "global %s" % ",".join(n.names),
